@@ -283,6 +283,8 @@ class Ctx:
         self.assumptions = []
         self.extra = {}
         self.mc_runs = []
+        self.evaluations = 0      # exploration level: cases judged ...
+        self.distinct = set()     # ... and the distinct non-trivial ones among them (hashes)
         self.findings = [f for f in load_findings() if f.get('property') == pid]
 
     @property
@@ -435,6 +437,15 @@ class Ctx:
         json.dump(info, open(os.path.join(rd, 'info.json'), 'w'), indent=1, default=str)
         self.violations.append({'what': what, 'signature': signature, 'replay': rd})
 
+    def tally(self, cases, key, nontrivial):
+        """exploration-level accounting: every case counts as an evaluation; a case that is non-trivial by the check's rule is
+        counted once per distinct key (the key is the case itself without run-specific counters)."""
+        import hashlib
+        for c in cases:
+            self.evaluations += 1
+            if nontrivial(c):
+                self.distinct.add(hashlib.sha1(json.dumps(key(c), sort_keys=True, default=str).encode()).hexdigest())
+
     def sample(self, x):
         if len(self.samples) < 6:
             self.samples.append(x)
@@ -456,6 +467,9 @@ class Ctx:
         }
         if rule:
             cov['rule'] = rule
+        if level == 'exploration':
+            cov['evaluations'] = self.evaluations
+            cov['distinct_nontrivial'] = len(self.distinct)
         cov.update(self.extra)
         if extra:
             cov.update(extra)
